@@ -273,6 +273,12 @@ def run_check(prop, tier, verif_seed, runs=None, workers=None, shrink=True, quie
             print(f"DETERMINISM-WARNING run {i}: event digest differs between the worker process and a re-execution")
             break
 
+    # missing seam: the event kind the scenario depends on never occurred in the whole batch (a single silent run is
+    # not an error: a library change may legitimately make one call do nothing)
+    key_event = meta(prop, "KEY_EVENT", None)
+    if key_event and n_ok >= 20 and events.get(key_event, 0) == 0:
+        harness_errors.append(f"seam missing: no {key_event} event in {n_ok} runs")
+
     violations_out = []
     os.makedirs(OUT_DIR, exist_ok=True)
     shrink_deadline = time.time() + (150 if tier == "quick" else 600)   # total minimisation budget of this check
